@@ -12,7 +12,8 @@ from luqum.parser import parser
 from luqum.utils import OpenRangeTransformer
 
 DOM = [0, 1, 2, 3, 4]
-ATOMS = [">a", ">=b", "<c", "<=e", "[a TO *]", "{* TO c]", "{b TO *}", "[* TO e}", "[b TO c]", "[* TO *]", "b", "(>a)^2", "f:>b", "NOT <c"]
+ATOMS = [">a", ">=b", "<c", "<=e", "[a TO *]", "{* TO c]", "{b TO *}", "[* TO e}", "[b TO c]", "[* TO *]", "b", "(>a)^2", "f:>b", "NOT <c",
+         "[a* TO e]", "[a TO c?]"]
 
 
 def val(w):
@@ -90,6 +91,15 @@ def main():
             qs.append(" ".join(combo))
             qs.append("(" + " AND ".join(combo) + ") OR (" + " AND ".join(reversed(combo)) + ")")
             qs.append(combo[0] + " AND (" + " OR ".join(combo[1:]) + " OR b)")
+    ones = [">a", ">=b", "<c", "<=e", "[a TO *]", "{* TO c]"]
+    for a in ones:
+        for b in ones:
+            for c in ones:
+                qs.append("%s AND (b OR %s AND d) AND %s" % (a, b, c))
+                qs.append("%s AND f:(%s AND d) AND %s" % (a, b, c))
+                qs.append("%s AND NOT (%s AND d) AND %s" % (a, b, c))
+    for order in itertools.product(("[a TO *]", "[* TO e]", "{b TO *}", "{* TO c}"), repeat=5):
+        qs.append(" AND ".join(order))
     res = pmap(check, qs)
     failures = [f for r in res for f in r[1]]
     rest, hit = classify(failures, p.get("known", []))
